@@ -56,11 +56,14 @@ EXHAUSTIVE = True
 EXHAUSTIVE_SCOPE = {
     "quick": "file: 1 entry len<=3, 2 entries len<=1, raw files len<=3 over 9 byte symbols, every truncation "
              "offset of each; th: ALL complete loader/consumer interleavings without appends for stores of 0, 1 "
-             "and 2 items; all schedules with one concurrent append up to depth 8",
+             "and 2 items; all schedules with one concurrent append up to depth 8; two simultaneous load() calls: "
+             "all schedules up to depth 7 (per-event.set() granularity) + all interleavings of the final notify "
+             "loop with a finishing consumer",
     "thorough": "file: 1 entry len<=4, 2 entries len<=2, 3 entries len<=1, raw files len<=4 over 9 byte symbols, "
                 "every truncation offset of each; th: ALL complete interleavings without appends for stores of "
                 "0..3 items (with a second load() for 0-1 items); all schedules up to depth 12 with one "
-                "concurrent append from 3 initial stores; depth 10 with two appends",
+                "concurrent append from 3 initial stores; depth 10 with two appends; two simultaneous load() "
+                "calls: all schedules up to depth 10 for stores of 0 and 1 items",
 }
 TRUSTED = ["harness/c13.py compares file bytes after every append, the loaded lists at every truncation offset, "
            "and (strs, loaded, yielded items, events, store, program counters) after every scheduled step",
@@ -284,7 +287,7 @@ class Sched:
             self.grant[role] = self.grant.get(role, 0) + 1
             self.cv.notify_all()
 
-    def wait_quiet(self, role, timeout=20.0):
+    def wait_quiet(self, role, timeout=90.0):
         with self.cv:
             ok = self.cv.wait_for(lambda: role in self.at or role in self.finished, timeout=timeout)
             if not ok:
@@ -326,6 +329,7 @@ class GEvent:
     def __init__(self, sched):
         self.s = sched
         self.e = threading.Event()
+        self.owner = getattr(_tls, "owner", None)  # which load() call created it
 
     def set(self):
         self.e.set()
@@ -558,8 +562,11 @@ class ThRun:
 
 
 class ThRun2:
-    """several simultaneous load() consumers (oracle only, not modelled): every op advances one thread
-    to its next synchronisation point; the loader additionally stops after every single event.set()"""
+    """several simultaneous load() calls; the loader additionally stops after every single
+    event.set().  ops: ["c", i, "start"|"wait"|"read"|"yield"], ["l", "reset"|"snap"|"append"|"notify"|
+    "set"|"done"|"final"]; an op whose thread is not at the matching point is a no-op."""
+
+    NCONS = 3
 
     def __init__(self, old, pre):
         self.s = Sched()
@@ -573,8 +580,10 @@ class ThRun2:
         self.outs = {}
         self.cthreads = {}
         self.threads = []
+        self.final = False
 
     def _consume(self, role, out):
+        _tls.owner = role
         loop = asyncio.new_event_loop()
 
         def init():
@@ -596,58 +605,128 @@ class ThRun2:
 
     def step(self, op):
         s = self.s
-        if op[0] == "start":
+        if op[0] == "c":
             role = "C%d" % op[1]
-            if role in self.cthreads:
+            what = op[2]
+            if what == "start":
+                if role in self.cthreads:
+                    return
+                self.outs[role] = []
+                t = threading.Thread(target=self._consume, args=(role, self.outs[role]), daemon=True)
+                self.cthreads[role] = t
+                self.threads.append(t)
+                t.start()
+                s.wait_quiet(role)
+                s.wait_quiet("L")
                 return
-            self.outs[role] = []
-            t = threading.Thread(target=self._consume, args=(role, self.outs[role]), daemon=True)
-            self.cthreads[role] = t
-            self.threads.append(t)
-            t.start()
-            s.wait_quiet(role)
-            s.wait_quiet("L")
-        elif op[0] == "adv":
-            role = op[1]
-            if role in s.at:
+            need = {"wait": "wait", "read": "lock", "yield": "unlocked"}[what]
+            if s.at.get(role) == need:
                 s.release(role)
                 s.wait_quiet(role)
+                if role in s.finished:
+                    self.cthreads[role].join(10)
+        elif op[0] == "l":
+            what = op[1]
+            need = {"reset": "start", "snap": "called", "append": "yield", "notify": "unlocked",
+                    "final": "unlocked", "set": "set", "done": "end"}[what]
+            if s.at.get("L") != need:
+                return
+            if what == "notify" and self.final:
+                return
+            if what == "final" and not self.final:
+                return
+            if what == "done":
+                self.final = True
+            s.release("L")
+            s.wait_quiet("L")
         else:
             raise ValueError(op)
+
+    def line(self):
+        s = self.s
+        la = s.at.get("L")
+        if self.th._load_thread is None:
+            lpc = "-"
+        elif "L" in s.finished:
+            lpc = "fin"
+        else:
+            lpc = {"start": "start", "called": "called", "yield": "iter", "end": "iter",
+                   "unlocked": "notifyFinal" if self.final else "notify",
+                   "set": "loopFinal" if self.final else "loop"}[la]
+        evs = list(self.th._string_load_events)
+        owners = [getattr(e, "owner", None) for e in evs]
+        parts = []
+        for i in range(self.NCONS):
+            role = "C%d" % i
+            if role not in self.cthreads:
+                parts.append("- N 0")
+                continue
+            if role in s.finished:
+                cpc, ev = "done", "N"
+            else:
+                cpc = {"wait": "wait", "lock": "read", "unlocked": "yield"}[s.at.get(role)]
+                mine = [e for e in evs if getattr(e, "owner", None) == role]
+                ev = ("1" if mine[0].is_set() else "0") if len(mine) == 1 else "?%d" % len(mine)
+            parts.append(f"{cpc} {ev} {enc_strs(self.outs[role])}")
+        ids = [o[1:] if isinstance(o, str) and o.startswith("C") else "?" for o in owners]
+        return (f"L={lpc} loaded={1 if self.th._loaded else 0} strs={enc_strs(self.th._loaded_strings)} "
+                f"events={enc_list(ids)} | " + " | ".join(parts))
 
     close = ThRun.close
 
 
-def th2_oracle(case):
-    global _TH_HANG
-    v = []
+def th2_run(case, finale=None):
     real_threading = H.threading
+    out = []
     r = None
     try:
         r = ThRun2(case["old"], case["pre"])
+        out.append(r.line())
         for op in case["ops"]:
             r.step(op)
+            out.append(r.line())
+        if finale:
+            finale(r)
+    finally:
+        if r is not None:
+            r.close()
+        H.threading = real_threading
+    return out
+
+
+def th2_model_lines(case):
+    out = ["nnew " + enc_strs(case["old"]) + " " + enc_strs(case["pre"])]
+    for op in case["ops"]:
+        out.append(f"nc {op[1]} {op[2]}" if op[0] == "c" else f"nl {op[1]}")
+    return out
+
+
+def th2_oracle(case):
+    v = []
+
+    def finale(r):
+        global _TH_HANG
         # from here on: real timing; every load() call must complete with the inline sequence
         exp = (list(case["old"]) + list(case["pre"]))[::-1]
         r.s.set_free()
         for role, t in r.cthreads.items():
             if _TH_HANG:
                 break
-            t.join(6)
+            t.join(12)
             if t.is_alive():
                 _TH_HANG = True
                 v.append({"signature": "ThreadedHistory.load | several simultaneous load() calls: never completes",
                           "msg": f"old={case['old']!r} pre={case['pre']!r} after schedule {case['ops']!r} the "
-                                 f"threads ran freely for 6 s and load() call {role} did not finish "
+                                 f"threads ran freely for 12 s and load() call {role} did not finish "
                                  f"(yielded {r.outs[role]!r}); events still registered: "
                                  f"{len(r.th._string_load_events)}"})
             elif r.outs[role] != exp:
                 v.append({"signature": "ThreadedHistory.load | several simultaneous load() calls: wrong items",
                           "msg": f"schedule {case['ops']!r}: {role} yielded {r.outs[role]!r}, inline {exp!r}"})
-    finally:
-        if r is not None:
-            r.close()
-        H.threading = real_threading
+
+    lines = th2_run(case, finale)
+    if any(l.startswith("impl-exception") for l in lines):
+        v.append({"signature": "ThreadedHistory | exception", "msg": str(lines[-1])})
     return v
 
 
@@ -692,7 +771,7 @@ def model_lines(case):
     if k == "th":
         return th_model_lines(case)
     if k == "th2":
-        return []          # not modelled: oracle only
+        return th2_model_lines(case)
     raise ValueError(k)
 
 
@@ -705,7 +784,7 @@ def impl_lines(case):
     if k == "th":
         return th_impl(case)
     if k == "th2":
-        return []
+        return th2_run(case)
     raise ValueError(k)
 
 
@@ -755,7 +834,7 @@ def threaded_file_load(path):
             async for x in th.load():
                 out.append(x)
 
-        await asyncio.wait_for(inner(), timeout=20)
+        await asyncio.wait_for(inner(), timeout=30)
         return out
 
     return asyncio.run(go())
@@ -817,7 +896,7 @@ def file_oracle(case):
                 except (asyncio.TimeoutError, TimeoutError):
                     _THREADED_BROKEN = True  # do not wait again in this process
                     bad("ThreadedHistory.load", "never completes (no concurrent append)",
-                        f"load() of a {len(got)}-entry file did not finish within 20 s")
+                        f"load() of a {len(got)}-entry file did not finish within 30 s")
                 except Exception as e:
                     bad("ThreadedHistory.load", "raises", f"{type(e).__name__}: {e}")
         elif k == "truncall":
@@ -899,12 +978,12 @@ def th_oracle(case):
         if not r.cons_active() or _TH_HANG:
             return
         r.s.set_free()
-        r.cthread.join(8)
+        r.cthread.join(15)
         if r.cthread.is_alive():
             _TH_HANG = True  # reported once per worker process; do not wait again
             v.append({"signature": "ThreadedHistory.load | never completes",
                       "msg": f"old={case['old']!r} pre={case['pre']!r} after schedule {case['ops']!r} the "
-                             f"threads ran freely for 8 s and load() did not finish; yielded {list(r.out)!r}"})
+                             f"threads ran freely for 15 s and load() did not finish; yielded {list(r.out)!r}"})
             return
         if r.athread is not None:
             r.athread.join(8)
@@ -1179,6 +1258,135 @@ def rand_th_case(rng, with_appends):
     return {"kind": "th", "old": old, "pre": pre, "ops": label_appends(sched)}
 
 
+C_NEXT = {"-": "start", "wait": "wait", "read": "read", "yield": "yield"}
+
+
+def rand_th2_case(rng):
+    old = ["o%d" % i for i in range(rng.choice([0, 0, 1, 2]))]
+    pre = ["p0"] if rng.random() < 0.2 else []
+    n = rng.choice([2, 2, 3])
+    ops = [["c", 0, "start"]]
+    lsteps = ["reset", "snap", "append", "notify", "set", "done", "final"]
+    for _ in range(rng.choice([10, 20, 40, 70])):
+        r = rng.random()
+        if r < 0.45:
+            ops.append(["l", rng.choice(lsteps)])
+        else:
+            ops.append(["c", rng.randrange(n), rng.choice(["start", "wait", "wait", "read", "read", "yield", "yield"])])
+    return {"kind": "th2", "old": old, "pre": pre, "ops": ops}
+
+
+class Ctl2:
+    """control skeleton of the multi-consumer system, used only to enumerate enabled schedules"""
+
+    def __init__(self, nstore, ncons):
+        self.l, self.rem, self.loaded, self.nstore = "-", 0, False, nstore
+        self.left = 0      # event.set() calls left in the current loop (approximation)
+        self.c = ["-"] * ncons
+        self.saw = [False] * ncons
+
+    def copy(self):
+        o = Ctl2(self.nstore, len(self.c))
+        o.l, o.rem, o.loaded, o.left = self.l, self.rem, self.loaded, self.left
+        o.c = list(self.c)
+        o.saw = list(self.saw)
+        return o
+
+    def enabled(self):
+        e = []
+        for i, c in enumerate(self.c):
+            if c == "-":
+                if i == 0 or self.c[i - 1] != "-":
+                    e.append(["c", i, "start"])
+            elif c in ("wait", "read", "yield"):
+                e.append(["c", i, c])
+        m = {"start": "reset", "called": "snap", "notify": "notify", "notifyFinal": "final", "loop": "set"}
+        if self.l in m:
+            e.append(["l", m[self.l]])
+        if self.l == "iter":
+            e.append(["l", "append" if self.rem else "done"])
+        return e
+
+    def do(self, op):
+        if op[0] == "c":
+            i, w = op[1], op[2]
+            if w == "start":
+                self.c[i] = "wait"
+                if self.l == "-":
+                    self.l = "start"
+            elif w == "wait":
+                self.c[i] = "read"      # may be a stutter in reality (event not set): harmless
+            elif w == "read":
+                self.c[i] = "yield"
+                self.saw[i] = self.loaded
+            else:
+                self.c[i] = "done" if self.saw[i] else "wait"
+        else:
+            w = op[1]
+            if w == "reset":
+                self.l = "called"
+            elif w == "snap":
+                self.l, self.rem = "iter", self.nstore
+            elif w == "append":
+                self.l, self.rem = "notify", self.rem - 1
+            elif w in ("notify", "final"):
+                n = sum(1 for c in self.c if c in ("wait", "read", "yield"))
+                after = "fin" if self.loaded else "iter"
+                self.l, self.left = ("loop", n - 1) if n else (after, 0)
+            elif w == "set":
+                if self.left > 0:
+                    self.left -= 1
+                else:
+                    self.l = "fin" if self.loaded else "iter"
+            elif w == "done":
+                self.l, self.loaded = "notifyFinal", True
+
+
+def th2_exhaustive(nstore, ncons, depth):
+    """maximal schedules (length == depth, or nothing enabled) of enabled steps; the skeleton does not
+    track the events, so a "wait" step may be a stutter (event not set) - on both sides"""
+    out = []
+
+    def go(ctl, sched):
+        en = ctl.enabled()
+        if len(sched) == depth or not en:
+            out.append(list(sched))
+            return
+        for op in en:
+            c2 = ctl.copy()
+            c2.do(op)
+            sched.append(op)
+            go(c2, sched)
+            sched.pop()
+
+    go(Ctl2(nstore, ncons), [])
+    return out
+
+
+def th2_systematic(tier):
+    """both consumers drained and waiting, then every interleaving of the loader's remaining steps with
+    the steps of the consumers (the skeleton does not track events, so some steps are stutters)"""
+    def c(i, n=1):
+        return [["c", i, w] for w in ("wait", "read", "yield")] * n
+
+    for old in ([], ["o1"]):
+        k = len(old)
+        prefix = [["c", 0, "start"], ["c", 1, "start"], ["l", "reset"], ["l", "snap"]]
+        prefix += ([["l", "append"], ["l", "notify"], ["l", "set"], ["l", "set"]]) * k + c(0) + c(1)
+        ltail = [["l", "done"], ["l", "final"], ["l", "set"], ["l", "set"]]
+        for first in (0, 1):
+            ctail = c(first)
+            n = len(ltail) + len(ctail)
+            for pos in itertools.combinations(range(n), len(ctail)):
+                ops, li, ci = [], 0, 0
+                for j in range(n):
+                    if j in pos:
+                        ops.append(ctail[ci]); ci += 1
+                    else:
+                        ops.append(ltail[li]); li += 1
+                yield {"kind": "th2", "old": old, "pre": [], "ops": prefix + ops + c(1 - first)}
+
+
 def cases(tier, rng):
     quick = tier == "quick"
     # --- codec
@@ -1210,6 +1418,14 @@ def cases(tier, rng):
             yield {"kind": "file", "ops": [["raw", list(tup)], ["fresh"], ["truncall"]]}
     # --- threaded, exhaustive schedules
     yield from th_exhaustive(tier)
+    # --- several simultaneous consumers (oracle only)
+    yield from th2_systematic(tier)
+    for nstore, ncons, depth in ([(0, 2, 7)] if quick else [(0, 2, 10), (1, 2, 10)]):
+        old = ["o%d" % i for i in range(nstore)]
+        for sched in th2_exhaustive(nstore, ncons, depth):
+            yield {"kind": "th2", "old": old, "pre": [], "ops": sched}
+    for _ in range(100 if quick else 3000):
+        yield rand_th2_case(rng)
     # --- random
     for _ in range(600 if quick else 12000):
         yield rand_file_case(rng)
@@ -1225,6 +1441,8 @@ def nontrivial(case):
         return any((op[0] == "app" and op[3]) or (op[0] == "raw" and op[1]) for op in case["ops"])
     if k == "th":
         return any(op[0] in ("cwait", "cread", "cyield") for op in case["ops"])
+    if k == "th2":
+        return len({op[1] for op in case["ops"] if op[0] == "c" and op[2] == "start"}) >= 2
     return True
 
 
